@@ -326,6 +326,31 @@ func HashString(s string) uint64 {
 	return h
 }
 
+// Package-level init() functions of the library run before any spec exists. Their
+// range-over-map sites take their order from the environment, so that a whole
+// worker process can be started under a non-canonical init-time order:
+//
+//	VERIFSIM_INIT_ORDER=reverse | shuffle:<seed> | rotate:<seed>
+//
+// (simrt is imported by every instrumented package, hence initialised first.)
+func init() {
+	v := os.Getenv("VERIFSIM_INIT_ORDER")
+	if v == "" {
+		return
+	}
+	mode, seed := v, uint64(0)
+	for i := 0; i < len(v); i++ {
+		if v[i] == ':' {
+			mode = v[:i]
+			fmt.Sscanf(v[i+1:], "%d", &seed)
+			break
+		}
+	}
+	plan = OrderPlan{Mode: mode, Seed: seed}
+	allSites = true
+	siteMode = map[int]string{}
+}
+
 // Reset prepares a fresh run.
 func Reset(p OrderPlan, stepBudget uint64, nSites int) {
 	steps = 0
